@@ -136,7 +136,11 @@ class RefAC:
         self.msg_ids: list[int] = []
 
     # --- building responses ------------------------------------------
+    report_body = None   # if set: the exact 0xC0 payload (everything before the trailing check byte)
+
     def report(self, frame_type: int = QUERY, msg_id: int = 0) -> bytes:
+        if self.report_body is not None:
+            return rc.frame_build(self.report_body, frame_type, check=self.check)
         body = encode_report(self.state, indoor=self.indoor, outdoor=self.outdoor, filter_alert=self.filter_alert,
                              length=self.report_len, raw_overrides=self.raw_overrides)
         return rc.frame_build(body + bytes([msg_id]), frame_type, check=self.check)
